@@ -357,7 +357,7 @@ impl CompilerSession {
     /// Check a resolved program constructed outside the source pipeline.
     ///
     /// Salsa requires an active query to create tracked structs, so the arenas
-    /// cross into the query graph through the session's pending-parts slot.
+    /// cross into the query graph through a ticket issued for this call.
     /// Intended for tests and tools that own the intermediate arenas.
     pub fn check_resolved(
         &self, spans: zydeco_surface::textual::syntax::SpanArena,
@@ -365,9 +365,11 @@ impl CompilerSession {
         scoped: zydeco_surface::scoped::arena::ScopedArena,
         root: zydeco_surface::scoped::syntax::TermId,
     ) -> zydeco_statics::query::TyckOutput {
-        *self.pending.lock().expect("pending check slot poisoned") =
-            Some(Arc::new(zydeco_statics::query::PendingParts { spans, prim, scoped, root }));
-        let data = zydeco_statics::query::intern_pending(self);
+        let ticket = zydeco_statics::query::PendingTicket::issue(
+            self,
+            zydeco_statics::query::PendingParts { spans, prim, scoped, root },
+        );
+        let data = zydeco_statics::query::intern_ticket(self, ticket);
         zydeco_statics::query::check_source(self, data)
     }
 
